@@ -672,7 +672,7 @@ func main() {
 		"left out (counted as excluded_slog_lv_quirk): traces in which a LogValuer resolving to a group WITHOUT attrs is the only content of an enclosing named group or of pending WithGroup groups - go1.23 slog.JSONHandler itself then writes an empty object, so the two references disagree; the same attribute is kept wherever it does not decide whether a group appears",
 		"left out (counted as excluded_slog_rollback_sep): attr lists in which a named group whose attrs all vanish is FOLLOWED by an attribute with content in the same list - go1.23 slog.JSONHandler then writes malformed JSON (separator lost after its rollback), so the reference cannot be cross-validated there; such groups are kept as the last/only attribute of a list",
 		"a group without attrs placed directly in a Record is dropped by slog.Record.AddAttrs itself and never reaches the handler",
-		"levels: every integer in [-12,16], MinInt and MaxInt; cores with every minimum level Debug..Fatal and a core that enables nothing; tees of two members over {>=Debug..>=Error, nothing, ==Debug..==Error} in every ordered pair (a record must reach exactly the members that enable its mapped level); cores whose Check declines what Enabled lets through (two dropping samplers, a declining wrapper): what Check declines is not written",
+		"levels: every integer in [-12,16], MinInt and MaxInt; cores with every minimum level Debug..Fatal and a core that enables nothing; tees of two members over {>=Debug..>=Error, nothing, ==Debug..==Error} in every ordered pair (a record must reach exactly the members that enable its mapped level); cores whose Check declines what Enabled lets through (two dropping samplers, a declining wrapper): what Check declines is not written; a core on an AtomicLevel that is changed after the handlers were built (every ordered pair of levels)",
 	}
 	run.Finish(map[string]any{
 		"states":                        len(stateSet),
@@ -873,6 +873,46 @@ func (r *rig) compositeLevels(ls []slog.Level, progs [][]op) int64 {
 							case !got && want:
 								r.report("level:not-handled-by-a-member-that-enables-the-level", fmt.Sprintf("%s.Handle at level %d (zap %v) on a tee of cores enabling %s / %s: member %d wrote nothing", progString(p), int(l), zl, a.name, b.name, i), ci)
 							}
+						}
+					})
+				}
+			}
+		}
+	}
+	// a core on a shared AtomicLevel that changes AFTER the handler (and handlers derived from it) were built:
+	// every ordered pair (level at construction, level at use)
+	named := []zapcore.Level{zapcore.DebugLevel, zapcore.InfoLevel, zapcore.WarnLevel, zapcore.ErrorLevel, zapcore.FatalLevel + 1}
+	for _, l0 := range named {
+		for _, l1 := range named {
+			al := zap.NewAtomicLevelAt(l0)
+			buf := &bytes.Buffer{}
+			root := slog.Handler(zapslog.NewHandler(zapcore.NewCore(zapcore.NewJSONEncoder(encoderConfig()), zapcore.AddSync(buf), al)))
+			var hs []slog.Handler
+			for _, p := range progs {
+				h := root
+				for _, o := range p {
+					h = o.apply(h)
+				}
+				hs = append(hs, h)
+			}
+			al.SetLevel(l1)
+			for pi, h := range hs {
+				for _, l := range ls {
+					n++
+					ci := caseInfo{Part: "levels", Prog: info("", progs[pi], nil).Prog, Rec: []string{alph.scalar2.label}, Note: fmt.Sprintf("slog level %d, AtomicLevel %v when the handler was built, %v now", int(l), l0, l1)}
+					r.guard(ci, func() {
+						want := mapped(l) >= l1
+						if got := h.Enabled(ctx, l); got != want {
+							r.report("level:Enabled-disagrees-with-core:level-changed-after-construction", fmt.Sprintf("%s.Enabled(%d) = %v; the core's AtomicLevel was %v when the handler was built and is %v now, the level maps to %v", progString(progs[pi]), int(l), got, l0, l1, mapped(l)), ci)
+						}
+						buf.Reset()
+						if err := h.Handle(ctx, mkRecord(l, []*spec{alph.scalar2})); err != nil {
+							r.report("level:Handle-error", fmt.Sprintf("%s.Handle at level %d returned %v", progString(progs[pi]), int(l), err), ci)
+							return
+						}
+						r.transitions++
+						if got := buf.Len() > 0; got != want {
+							r.report("level:Handle-disagrees-with-core:level-changed-after-construction", fmt.Sprintf("%s.Handle at level %d wrote=%v; AtomicLevel %v at construction, %v now", progString(progs[pi]), int(l), got, l0, l1), ci)
 						}
 					})
 				}
